@@ -220,6 +220,11 @@ Write ==
               x # st.cell[v] /\
               Do([a |-> "write", n |-> v, op |-> op, x |-> x], VarWrite(st, v, op, x))
        ELSE Do([a |-> "write", n |-> v, op |-> op, x |-> NoVal], VarWrite(st, v, op, NoVal))
+\* Incr::on_update: a node-level handler (at most one per node here)
+OnUpdateA ==
+  /\ Quiet /\ Budget /\ "onupdate" \in Effs
+  /\ \E n \in Visible : Len(st.nsubs[n]) < 1 /\
+       Do([a |-> "on_update", n |-> n], ApiOnUpdate(st, n))
 \* arm the observability callback of an expert node (C13 crash point during observer linking)
 XArm ==
   /\ Quiet /\ Budget /\ "xarm" \in Effs
@@ -338,6 +343,8 @@ Expect(s) ==
            [n \in 1..s.n |-> n \in c],
    \* allocation check: ids are only comparable while every node was created in the same scope
    scopes |-> [n \in 1..s.n |-> s.scope[n]],
+   \* nodes made by a memoised function: their scope is what C20 is about
+   memomade |-> [n \in 1..s.n |-> \E m \in 1..Len(s.memos) : \E i \in 1..Len(s.memos[m].table) : s.memos[m].table[i].node = n],
    dlvmin |-> LET d == RefDlvMin(s)
                   RECURSIVE Go(_)
                   Go(t) == IF t = {} THEN <<>> ELSE
@@ -355,6 +362,7 @@ Expect(s) ==
    stale |-> [n \in 1..s.n |-> s.scope[n] # 0 /\ s.born[n] < s.gen[s.scope[n]]],
    necessary |-> Cardinality({n \in 1..s.n : Alive(s, n) /\ Nec(s, n)}),
    memo |-> s.memoLog,
+   ndlv |-> s.ndlv,
    cut |-> s.cutLog,
    inreads |-> s.readLog,
    rets |-> s.retLog,
@@ -388,7 +396,7 @@ BeginPoisoned ==
   /\ UNCHANGED <<coneB, noops>>
 
 Init == /\ st = InitState(MaxH) /\ hist = <<>> /\ coneB = {} /\ acts = 0 /\ noops = NoNoop
-Next == Scripted \/ Create \/ CloneObs \/ SetMaxH \/ DropHandle \/ Write \/ SubscribeA \/ UnsubscribeA \/ Observe \/ ObserveLeaked \/ DropObs \/ Disallow \/ XArm
+Next == Scripted \/ Create \/ CloneObs \/ SetMaxH \/ DropHandle \/ Write \/ SubscribeA \/ UnsubscribeA \/ Observe \/ ObserveLeaked \/ DropObs \/ Disallow \/ XArm \/ OnUpdateA
         \/ Begin \/ Step \/ EndA \/ HandlersStep \/ Finish \/ RecoverA \/ BeginPoisoned
 Spec == Init /\ [][Next]_vars
 \* counters and the round number never influence behaviour: keep them out of the fingerprint
